@@ -223,7 +223,15 @@ where
         Ok(())
     }
 
-    async fn ensure_ready(&mut self, _mode: RadioMode) -> Result<(), RadioError> {
+    async fn ensure_ready(&mut self, mode: RadioMode) -> Result<(), RadioError> {
+        // LoRa mode can only be selected while the chip sleeps. A radio that is
+        // asleep as far as the caller knows may also be fresh out of a reset
+        // that could not be completed (FSK/OOK standby), so select LoRa sleep
+        // (again) before it is woken up.
+        if mode == RadioMode::Sleep {
+            let buf = [Register::RegOpMode.write_addr(), LoRaMode::Sleep.value()];
+            self.intf.write(&buf, true).await?;
+        }
         Ok(())
     }
 
